@@ -1481,7 +1481,8 @@ Lemma nx_to_matrix_entry x i j ni nj :
   entry (nx_to_matrix x) i j = Some (if nx_has x ni nj then 1%Z else 0%Z).
 Proof.
   intros Hi Hj. unfold entry, nx_to_matrix.
-  rewrite (map_nth_error _ _ _ Hi). apply (map_nth_error _ _ _ Hj).
+  rewrite (map_nth_error _ _ _ Hi).
+  apply (map_nth_error (fun v => if nx_has x ni v then 1%Z else 0%Z) _ _ Hj).
 Qed.
 
 Lemma nx_has_spec dir ns es u v :
@@ -1576,3 +1577,139 @@ Section WithGraphInvNx.
     exfalso. apply (Hac' d). apply Hiff. reflexivity.
   Qed.
 End WithGraphInvNx.
+
+(** * Examples: non-vacuity and the behaviour observed on the implementation *)
+From CG Require Import Names.
+
+Module MatrixExamples.
+  Local Open Scope N_scope.
+  Definition na : name := [97].  Definition nb : name := [98].
+  Definition nc : name := [99].  Definition nd : name := [100].
+
+  (** a -> b, c -- b, isolated d  (built by the public mutators) *)
+  Definition gex : graph :=
+    run parse fmt Plain
+      [OAddEdge (str_ep na) (str_ep nb) Dir None true;
+       OAddEdge (str_ep nc) (str_ep nb) Und None true;
+       OAddNode nd VUnspec None] (empty_graph []).
+
+  Lemma gex_inv : Inv parse Plain gex.
+  Proof.
+    constructor.
+    - vm_compute. repeat constructor; simpl; intuition discriminate.
+    - vm_compute. apply Permutation_refl.
+    - vm_compute. repeat constructor; simpl; intuition discriminate.
+    - intros e He. vm_compute in He. destruct He as [<-|[<-|[]]]; vm_compute; intuition.
+    - intros e He. vm_compute in He. destruct He as [<-|[<-|[]]]; vm_compute; discriminate.
+    - intros e He. vm_compute in He. destruct He as [<-|[<-|[]]]; vm_compute; intuition discriminate.
+    - intros n Hn. vm_compute in Hn.
+      destruct Hn as [<-|[<-|[<-|[<-|[]]]]]; vm_compute; apply Permutation_refl.
+    - intros n Hn. vm_compute in Hn.
+      destruct Hn as [<-|[<-|[<-|[<-|[]]]]]; vm_compute; apply Permutation_refl.
+    - intros _. split; reflexivity.
+    - discriminate.
+  Qed.
+
+  Lemma gex_acyclic : Acyclic gex.
+  Proof.
+    assert (Harc : forall x y, arc (dgraph gex) x y -> x = na /\ y = nb).
+    { intros x y H. vm_compute in H. destruct H as [H|[]]. injection H as <- <-. split; reflexivity. }
+    assert (Hp : forall x y, path (dgraph gex) x y -> x = na /\ y = nb).
+    { intros x y H. unfold path in H. induction H as [x y H|x y z _ [-> ->] _ [E _]]; [apply Harc; exact H|].
+      discriminate. }
+    intros v H. destruct (Hp _ _ H) as [-> E]. discriminate.
+  Qed.
+
+  (** observed: [g.to_numpy()] = ([[0,1,0,0],[0,0,1,0],[0,1,0,0],[0,0,0,0]], ['a','b','c','d']) *)
+  Example gex_to_numpy :
+    to_numpy gex = Ok ([[0; 1; 0; 0]; [0; 0; 1; 0]; [0; 1; 0; 0]; [0; 0; 0; 0]]%Z, [na; nb; nc; nd]).
+  Proof. vm_compute. reflexivity. Qed.
+
+  (** the hypotheses of [matrix_entry] / [matrix_roundtrip] hold of a non-trivial graph, and the
+      rebuilt graph is a -> b, b -- c (the undirected edge comes back with its endpoints
+      exchanged: equal, not identical) with the isolated node kept *)
+  Example gex_roundtrip :
+    exists g', from_matrix parse fmt Plain
+                 [[0; 1; 0; 0]; [0; 0; 1; 0]; [0; 1; 0; 0]; [0; 0; 0; 0]]%Z
+                 (Some [na; nb; nc; nd]) true = Ok g'
+               /\ map (fun e => (esrc e, edst e, ety e)) (v_edges g') = [(na, nb, Dir); (nb, nc, Und)]
+               /\ v_node_names g' = [na; nb; nc; nd].
+  Proof. eexists. split; [vm_compute; reflexivity|]. split; vm_compute; reflexivity. Qed.
+
+  Example gex_roundtrip_thm :
+    exists g', from_matrix parse fmt Plain
+                 [[0; 1; 0; 0]; [0; 0; 1; 0]; [0; 1; 0; 0]; [0; 0; 0; 0]]%Z
+                 (Some [na; nb; nc; nd]) false = Ok g' /\ same_graph gex g'.
+  Proof.
+    destruct (@matrix_roundtrip_novalidate parse fmt Plain gex _ _ gex_inv gex_to_numpy)
+      as (g' & H1 & _ & H2).
+    exists g'. split; assumption.
+  Qed.
+
+  Example gex_entry_ab :
+    entry [[0; 1; 0; 0]; [0; 0; 1; 0]; [0; 1; 0; 0]; [0; 0; 0; 0]]%Z 0 1 = Some 1%Z
+    /\ entry [[0; 1; 0; 0]; [0; 0; 1; 0]; [0; 1; 0; 0]; [0; 0; 0; 0]]%Z 1 0 = Some 0%Z.
+  Proof. split; reflexivity. Qed.
+
+  (** observed: GraphConversionError for a mixed graph, networkx form of a directed one *)
+  Example gex_to_nx_refused : to_nx gex = Err EConv /\ to_gml_nx gex = Err EConv.
+  Proof. split; vm_compute; reflexivity. Qed.
+
+  Definition gdir : graph :=
+    run parse fmt Plain
+      [OAddEdge (str_ep na) (str_ep nb) Dir None true;
+       OAddEdge (str_ep nc) (str_ep nb) Dir None true;
+       OAddNode nd VUnspec None] (empty_graph []).
+  Example gdir_nx : to_nx gdir = Ok (true, [na; nb; nc; nd], [(na, nb); (nc, nb)]).
+  Proof. vm_compute. reflexivity. Qed.
+  Example gdir_nx_roundtrip :
+    exists g', from_nx parse fmt Plain (true, [na; nb; nc; nd], [(na, nb); (nc, nb)]) true = Ok g'
+               /\ map (fun e => (esrc e, edst e, ety e)) (v_edges g') = [(na, nb, Dir); (nc, nb, Dir)]
+               /\ v_node_names g' = [na; nb; nc; nd].
+  Proof. eexists. split; [vm_compute; reflexivity|]. split; vm_compute; reflexivity. Qed.
+
+  (** a bidirected edge: TypeError from [to_numpy] and [adjacency_matrix], GraphConversionError
+      from [to_networkx] and [to_gml_string] *)
+  Definition gbi : graph :=
+    run parse fmt Plain [OAddEdge (str_ep na) (str_ep nb) Bi None true] (empty_graph []).
+  Example gbi_refused :
+    to_numpy gbi = Err EType /\ to_matrix gbi = Err EType
+    /\ to_nx gbi = Err EConv /\ to_gml_nx gbi = Err EConv.
+  Proof. repeat split; vm_compute; reflexivity. Qed.
+
+  (** malformed input, as observed *)
+  Example non_square : from_matrix parse fmt Plain [[0; 1]]%Z None true = Err EInvalidAdj.
+  Proof. reflexivity. Qed.
+  Example non_binary : from_matrix parse fmt Plain [[2]]%Z None true = Err EInvalidAdj.
+  Proof. reflexivity. Qed.
+  Example wrong_name_count : from_matrix parse fmt Plain [[0]]%Z (Some [na; nb]) true = Err EAssert.
+  Proof. reflexivity. Qed.
+  Example duplicate_names :
+    from_matrix parse fmt Plain [[0; 0]; [0; 0]]%Z (Some [na; na]) true = Err ENodeDup.
+  Proof. vm_compute. reflexivity. Qed.
+  Example three_cycle_refused :
+    from_matrix parse fmt Plain [[0; 1; 0]; [0; 0; 1]; [1; 0; 0]]%Z (Some [na; nb; nc]) true
+    = Err ECyclic.
+  Proof. vm_compute. reflexivity. Qed.
+  Example three_cycle_unvalidated :
+    exists g', from_matrix parse fmt Plain [[0; 1; 0]; [0; 0; 1]; [1; 0; 0]]%Z (Some [na; nb; nc]) false
+               = Ok g' /\ map edge_key (v_edges g') = [(na, nb); (nb, nc); (nc, na)].
+  Proof. eexists. split; vm_compute; reflexivity. Qed.
+  (** default names *)
+  Example default_node_names :
+    exists g', from_matrix parse fmt Plain [[0; 1]; [0; 0]]%Z None true = Ok g'
+               /\ map edge_key (v_edges g')
+                  = [([110; 111; 100; 101; 95; 48], [110; 111; 100; 101; 95; 49])].
+  Proof. eexists. split; vm_compute; reflexivity. Qed.
+  (** time-series class: "x" then "x lag(n=1)"; a directed entry against time is a ValueError, a
+      symmetric pair becomes an undirected edge stored earlier -> later *)
+  Definition x0 : name := [120].
+  Definition x1 : name := [120; 32; 108; 97; 103; 40; 110; 61; 49; 41].
+  Example ts_against_time :
+    from_matrix parse fmt TS [[0; 1]; [0; 0]]%Z (Some [x0; x1]) true = Err EValue.
+  Proof. vm_compute. reflexivity. Qed.
+  Example ts_undirected_swapped :
+    exists g', from_matrix parse fmt TS [[0; 1]; [1; 0]]%Z (Some [x0; x1]) true = Ok g'
+               /\ map (fun e => (esrc e, edst e, ety e)) (v_edges g') = [(x1, x0, Und)].
+  Proof. eexists. split; vm_compute; reflexivity. Qed.
+End MatrixExamples.
